@@ -61,6 +61,13 @@ class Driver:
         self.refusers = set()
         self.answered = []
         self.deviated = False
+        self.gen_calls = []              # per-worker input callable: worker it was evaluated for, per call
+
+    def genuine(self, x, tag):
+        """the value a worker computes from (x, tag) is the target's value of input x only if the tuple is the one drawn"""
+        if tag is None:
+            return True
+        return 1 <= x <= len(self.gen_calls) and tag == 1000 + self.gen_calls[x - 1]
 
     def callin(self, kind, w, x):
         self.n_callins += 1
@@ -85,11 +92,11 @@ class Driver:
         if kind == 'step':
             if sw.st != 'run' or not sw.inbox:
                 return
-            x = sw.inbox.pop(0)
+            x, tag = sw.inbox.pop(0)
             if x in self.scn['poison'] or w in self.scn['bad']:
                 sw.counter_end()
             else:
-                sw.emit(x)
+                sw.emit(x if self.genuine(x, tag) else -x)
         elif kind == 'exit':
             if sw.st == 'dying':
                 sw.st = 'dead'
@@ -157,12 +164,12 @@ class ScriptedWorker:
             return False
 
     # API the pool uses ---------------------------------------------------------------------
-    def _enqueue(self, x):
+    def _enqueue(self, x, tag=None):
         from pyworkers.persistent import WorkerClosedError
         self.drv.handed[x - 1].append(self.id) if 1 <= x <= len(self.drv.handed) else None
         self.cur = x
         if self.st == 'run':
-            self.inbox.append(x)
+            self.inbox.append((x, tag))
             return
         if self.st == 'dying':
             i = len(self.drv.real_cis)
@@ -172,9 +179,9 @@ class ScriptedWorker:
             return                       # buffered, never read
         raise WorkerClosedError(self)
 
-    def enqueue(self, x):
+    def enqueue(self, x, tag=None):
         self.drv.callin('call', self.id, x)
-        self._enqueue(x)
+        self._enqueue(x, tag)
 
     def is_alive(self):
         self.drv.callin('alive', self.id, self.cur)
@@ -217,12 +224,12 @@ def run_real(scn, h, cis):
     refuse = set(tuple(x) for x in scn['refuse'])
     enqueue_fn = None
     if refuse:
-        def enqueue_fn(worker, x):
+        def enqueue_fn(worker, x, tag=None):
             drv.callin('call', worker.id, x)
             if (worker.id, x) in refuse:
                 drv.refusers.add(worker.id)
                 return False
-            worker._enqueue(x)
+            worker._enqueue(x, tag)
             return True
 
     class Abort(Exception):
@@ -234,13 +241,21 @@ def run_real(scn, h, cis):
             if scn.get('abort_after') and len(drv.answered) == scn['abort_after']:
                 raise Abort('the user callback fails')      # run() is abandoned with inputs still in flight
 
-    ret, outcome = [], 'ok'
+    class PerWorker:                     # a callable object, not a plain function
+        def __call__(self, worker):
+            drv.gen_calls.append(worker.id)
+            return 1000 + worker.id
+    sources = [iter(range(1, scn['n'] + 1))] + ([PerWorker()] if scn.get('callsrc') else [])
+    retres = scn.get('retres', 'T') == 'T'
+    ret, outcome, retnone = [], 'ok', 'F'
     try:
-        ret = p.run(iter(range(1, scn['n'] + 1)), worker_callback=cb, enqueue_fn=enqueue_fn,
-                    worker_extra_pending_inputs=scn['extra'])
+        ret = p.run(*sources, worker_callback=cb, enqueue_fn=enqueue_fn,
+                    worker_extra_pending_inputs=scn['extra'], return_results=retres)
+        retnone = 'T' if ret is None else 'F'
         ret = list(ret or [])
     except pool_mod.PoolError as e:
         outcome = 'poolerror'
+        retnone = 'T' if e.partial_results is None else 'F'
         ret = list(e.partial_results or [])
     except Hang:
         outcome = 'hang'
@@ -275,34 +290,44 @@ def run_real(scn, h, cis):
     n = scn['n']
     drv.second = second
     obs = {'outcome': outcome,
-           'ret': [x if (isinstance(x, int) and 1 <= x <= n) else 0 for x in ret],
+           'ret': [x if (isinstance(x, int) and 1 <= x <= n) else 0 for x in ret], 'retnone': retnone,
            'alive': sorted(w for w, sw in drv.workers.items() if sw.st == 'run'),
            'dead': sorted(w for w, sw in drv.workers.items() if sw.st != 'run'),
            'refusers': sorted(drv.refusers),
-           'handed': drv.handed, 'answered': drv.answered}
+           'handed': drv.handed, 'answered': [[w, x if 1 <= x <= n else 0] for w, x in drv.answered]}
+    drv.cbres = [x if 1 <= x <= n else 0 for _, x in drv.answered]
     return obs, drv
 
 
 # configurations: (label, cfg overrides, python scenario)
-def _scn(W, n, extra, retry, poison=(), bad=(), refuse=()):
+def _scn(W, n, extra, retry, poison=(), bad=(), refuse=(), retres=True, callsrc=False):
     return {'W': list(W), 'n': n, 'extra': extra, 'retry': 'T' if retry else 'F', 'poison': list(poison),
-            'bad': list(bad), 'refuse': [list(x) for x in refuse], 'second_run': bool(refuse) or bool(bad)}
+            'bad': list(bad), 'refuse': [list(x) for x in refuse], 'second_run': bool(refuse) or bool(bad),
+            'retres': 'T' if retres else 'F', 'callsrc': callsrc}
+
+
+def _jscn(scn, n=None):
+    return {'n': scn['n'] if n is None else n, 'retry': scn['retry'], 'retres': scn.get('retres', 'T')}
 
 
 def _configs(tier):
     c = []
 
-    def add(label, W=(1, 2), n=3, extra=1, retry=True, poison=(), bad=(), kills=1, refuse=None, refname='NoPairs', mc=True):
+    def add(label, W=(1, 2), n=3, extra=1, retry=True, poison=(), bad=(), kills=1, refuse=None, refname='NoPairs', mc=True,
+            retres=True, callsrc=False):
         kw = dict(W='{%s}' % ', '.join(map(str, W)), N=str(n), Extra=str(extra), Retry='TRUE' if retry else 'FALSE',
                   Poison='{%s}' % ', '.join(map(str, poison)), Bad='{%s}' % ', '.join(map(str, bad)),
-                  MaxKills=str(kills), Refuse=refname)
-        c.append((label, kw, _scn(W, n, extra, retry, poison, bad, refuse or ()), mc))
+                  MaxKills=str(kills), Refuse=refname, RetRes='TRUE' if retres else 'FALSE', CallSrc='TRUE' if callsrc else 'FALSE')
+        c.append((label, kw, _scn(W, n, extra, retry, poison, bad, refuse or (), retres, callsrc), mc))
     add('W2 N3 extra1 kill1')
     add('W2 N3 extra1 poison{2} bad{1} kill1', poison=(2,), bad=(1,))
     add('W2 N3 extra1 noretry poison{2} kill1', retry=False, poison=(2,))
     add('W3 N3 extra1 kill1', W=(1, 2, 3), n=3)
     add('W3 N1 extra1 bad{1,2}', W=(1, 2, 3), n=1, bad=(1, 2), kills=0)       # fewer inputs than worker slots: untouched idle workers
     add('W3 N2 extra0 bad{1} kill1', W=(1, 2, 3), n=2, extra=0, bad=(1,))
+    # return_results=False (results only through the callback) and a per-worker input callable as second source
+    add('W2 N3 extra1 poison{2} kill1 return_results=False', poison=(2,), retres=False)
+    add('W2 N3 extra1 poison{2} kill1 per-worker callable', poison=(2,), callsrc=True)
     if tier == 'thorough':
         add('W3 N4 extra1 kill1', W=(1, 2, 3), n=4)
         add('W2 N3 extra0 kill1', extra=0)
@@ -313,6 +338,9 @@ def _configs(tier):
         add('W2 N2 kill2', n=2, kills=2)
         add('W1 N2 kill1', W=(1,), n=2)
         add('W2 N0', n=0, kills=0)
+        add('W2 N3 extra1 noretry kill1 return_results=False', retry=False, retres=False)
+        add('W3 N4 extra1 kill1 per-worker callable return_results=False', W=(1, 2, 3), n=4, retres=False, callsrc=True)
+        add('W2 N3 refuse(1,1) kill1 per-worker callable', refuse=[(1, 1)], refname='Ref_w1_x1', mc=False, callsrc=True)
     # refusing enqueue_fn (known findings F07b/F08 live here)
     add('W2 N3 refuse(1,1) kill1', refuse=[(1, 1)], refname='Ref_w1_x1', mc=False)
     # run() abandoned by an exception of the user's callback with inputs in flight, then run() again on the same pool
@@ -345,6 +373,8 @@ CONSTANTS
   MaxDyRaise = 2
   IgnoreLate = TRUE
   OfferOnce = TRUE
+  RetRes = TRUE
+  CallSrc = FALSE
   Reduced = FALSE
   DetOrder = FALSE
   Hist = FALSE
@@ -403,7 +433,7 @@ def real_worker_traces(tier, ev, drift):
                 if e[0] == 'enq' and 1 <= e[2] <= n:
                     handed[e[2] - 1].append(e[1])
             dead = sorted(set(r.get('killed', [])) | set(e[1] for e in r['trace'] if e[0] == 'died'))
-            r['obs'] = {'outcome': r['outcome'], 'ret': r['ret'], 'alive': [w for w in (1, 2, 3) if w not in dead], 'dead': dead,
+            r['obs'] = {'outcome': r['outcome'], 'ret': r['ret'], 'retnone': 'F', 'alive': [w for w in (1, 2, 3) if w not in dead], 'dead': dead,
                         'refusers': [], 'handed': handed, 'answered': [[e[1], e[2]] for e in r['trace'] if e[0] == 'fin']}
             out.append(r)
     ev.cov['real_worker_traces'] = len(out)
@@ -425,7 +455,7 @@ def run(prop, tier, replay=None):
     if replay is not None:
         rp = replay['replay']
         obs, drv = run_real(rp['scn'], rp['h'], rp['cis'])
-        rec = {'id': 'replay', 'scn': {'n': rp['scn']['n'], 'retry': rp['scn']['retry']}, 'obs': obs}
+        rec = {'id': 'replay', 'scn': _jscn(rp['scn']), 'obs': obs}
         fails, _ = tlc.judge('PoolJudge', [rec], name='replay')
         print('replayed:', json.dumps(rec), 'call-ins:', drv.real_cis)
         bad = [c for _, c in fails if c.startswith(mine)]
@@ -436,7 +466,8 @@ def run(prop, tier, replay=None):
     violations, drift = [], []
     records, meta = [], {}
     n_paths = 0
-    invs = ['Inv_NoInternalError', 'Inv_ExactlyOnce', 'Inv_Terminates', 'Inv_NotStuck', 'Inv_Genuine'] if prop == 'C07' else \
+    invs = ['Inv_NoInternalError', 'Inv_ExactlyOnce', 'Inv_Terminates', 'Inv_NotStuck', 'Inv_Genuine', 'Inv_CallbackSeesAll',
+            'Inv_RetIffRetRes', 'Inv_GenOnce'] if prop == 'C07' else \
            ['Inv_SoundError', 'Inv_SurvivorSuffices', 'Inv_Genuine', 'Inv_MissingExplained']
     for label, kw, scn, mc in _configs(tier):
         big = len(scn['W']) >= 3
@@ -470,7 +501,7 @@ def run(prop, tier, replay=None):
         if rp_.error and not rp_.tags.get('PATH'):
             raise MachineryError('path dump failed for %s: %s' % (label, rp_.error))
         seen = set()
-        for hs, cs, m_outcome, m_ret in rp_.tags.get('PATH', []):
+        for hs, cs, m_outcome, m_ret, m_cb, m_gen in rp_.tags.get('PATH', []):
             if (hs, cs) in seen:
                 continue
             seen.add((hs, cs))
@@ -478,14 +509,14 @@ def run(prop, tier, replay=None):
             obs, drv = run_real(scn, h, cis)
             rid = 'p%d' % len(records)
             if obs['outcome'] != 'aborted':          # a run abandoned by the user's own exception is not judged, the next one is
-                records.append({'id': rid, 'scn': {'n': scn['n'], 'retry': scn['retry']}, 'obs': obs})
+                records.append({'id': rid, 'scn': _jscn(scn), 'obs': obs})
                 meta[rid] = {'scn': scn, 'h': h, 'cis': cis, 'label': label}
             if drv.second is not None:
                 s2 = drv.second
                 alive = obs['alive']
                 rid2 = rid + 'b'
-                records.append({'id': rid2, 'scn': {'n': s2['n'], 'retry': scn['retry']},
-                                'obs': {'outcome': s2['outcome'], 'ret': s2['ret'], 'alive': alive, 'dead': obs['dead'], 'refusers': [],
+                records.append({'id': rid2, 'scn': dict(_jscn(scn, s2['n']), retres='T'),
+                                'obs': {'outcome': s2['outcome'], 'ret': s2['ret'], 'retnone': 'F', 'alive': alive, 'dead': obs['dead'], 'refusers': [],
                                         'handed': [[w for w in alive] for _ in range(s2['n'])], 'answered': []}})
                 meta[rid2] = {'scn': dict(scn, second='inputs 101.. after the first run'), 'h': h, 'cis': cis, 'label': label + ' / second run() on the same pool'}
             n_paths += 1
@@ -495,10 +526,14 @@ def run(prop, tier, replay=None):
                 continue
             if mo == 'hang' and ro == 'hang' and drv.first_cis[:len(cis)] == cis:
                 pass
-            elif drv.first_deviated or ro != mo or (mo in ('ok', 'poolerror') and obs['ret'] != _tla(m_ret)):
+            elif drv.first_deviated or ro != mo or (mo in ('ok', 'poolerror') and (
+                    obs['ret'] != _tla(m_ret) or drv.cbres != _tla(m_cb)
+                    or (scn.get('callsrc') and drv.gen_calls != [g for g in _tla(m_gen) if g]))):
                 if len(drift) < 4:
                     drift.append('%s: real Pool.run deviates from the TLC behaviour (model outcome %s ret %s; real outcome %s ret %s; '
-                                 'call-ins model %s real %s)' % (label, m_outcome, m_ret, obs['outcome'], obs['ret'], cis[:8], drv.first_cis[:8]))
+                                 'callback results model %s real %s; per-worker source evaluated for model %s real %s; '
+                                 'call-ins model %s real %s)' % (label, m_outcome, m_ret, obs['outcome'], obs['ret'], m_cb, drv.cbres,
+                                                                 m_gen, drv.gen_calls, cis[:8], drv.first_cis[:8]))
                 meta[rid]['drift'] = True
 
     # 1c. thorough: the upper end of the quantifier (3 workers, 6 inputs, extra pending 2, 3 deaths incl. a poison input) by simulation
@@ -516,7 +551,7 @@ def run(prop, tier, replay=None):
     real = real_worker_traces(tier, ev, drift) if (prop == 'C07' or tier == 'thorough') else []
     for r in real:
         rid = 'p%d' % len(records)
-        records.append({'id': rid, 'scn': {'n': r['spec']['N'], 'retry': 'T'}, 'obs': r['obs']})
+        records.append({'id': rid, 'scn': {'n': r['spec']['N'], 'retry': 'T', 'retres': 'T'}, 'obs': r['obs']})
         meta[rid] = {'scn': dict(_scn((1, 2, 3), r['spec']['N'], r['spec']['extra'], True, (4,) if r['spec']['poison'] else ()), real=r['spec']),
                      'h': r['trace'], 'cis': [], 'label': 'real %s workers seed %d kills %d' % (r['spec']['kind'], r['spec']['seed'], r['spec']['kills'])}
 
@@ -549,5 +584,5 @@ def run(prop, tier, replay=None):
     ev.assumptions += ['workers are scripted objects with real multiprocessing pipes; connection.wait order = registration order, '
                        'idle-worker pick = smallest id (both as in CPython for small int ids)',
                        'environment moves only at the pool\'s call-ins (reduction validated in selftest)',
-                       'inputs come from one iterator; per-worker input callables are not modelled']
+                       'inputs come from one iterator, optionally zipped with one per-worker callable source(worker) (gen in Pool.tla)']
     return finish(ev, violations, T.s(), drift)
